@@ -103,8 +103,15 @@ def oracle(rng, conv, f, args):
         return None
     sent = {r: (rng.choice([0, 1, 0x1234, 0x8000, 0xFFFF, 0x4001]) + r) & 0xFFFF for r in range(1, 11)}
     calls = 2 if f == "malloc" else 1
-    r = sc.run(sc.program(conv, f, args, sent, calls))
-    what = "%s %s(%s)" % (conv, f, ", ".join(repr(a) for a in args))
+    text = sc.program(conv, f, args, sent, calls)
+    sp0 = 0
+    if conv == "stack" and f in ("div", "mod", "not", "size", "ord") and rng.random() < 0.25:
+        # the caller's stack at the very top of memory: frame cells wrap around (D49; seed C19g made the Python
+        # helpers refuse such a frame)
+        sp0 = rng.choice([0xFFF0, 0xFFFB, 0xFFFC, 0xFFFD, 0xFFFE, 0xFFFF])
+        text = text.replace("CBON()\n", "CBON()\nSET(R15, 0x%04x)\n" % sp0, 1)
+    r = sc.run(text)
+    what = "%s %s(%s)%s" % (conv, f, ", ".join(repr(a) for a in args), " with SP = 0x%04x" % sp0 if sp0 else "")
     if "raise" in r:
         return "%s: %s" % (what, r["raise"])
     vm, sym = r["vm"], r["symbols"]
@@ -116,8 +123,8 @@ def oracle(rng, conv, f, args):
         return None
     if vm.registers[11] != 0x7e57:
         return "%s does not return to its caller (the instruction after the call sequence was never reached)" % what
-    if vm.load_memory(base + 14) != 0 or vm.load_memory(base + 15) != 0:
-        return "%s: FP/SP after the call sequence are %d/%d, they were 0/0 before" % (what, vm.load_memory(base + 14), vm.load_memory(base + 15))
+    if vm.load_memory(base + 14) != 0 or vm.load_memory(base + 15) != sp0:
+        return "%s: FP/SP after the call sequence are %d/%d, they were 0/%d before" % (what, vm.load_memory(base + 14), vm.load_memory(base + 15), sp0)
     if conv == "stack":
         changed = [k for k in range(1, 11) if vm.load_memory(base + k) != sent[k] & 0xFFFF]
         if changed:
